@@ -117,7 +117,8 @@ class Editor:
 
 
 def run(cfg, d, i, fault, seed=0, editor=None):
-    cipher, mac, comp = cfg
+    cipher, mac, comp = cfg[:3]
+    rekey = len(cfg) > 3
     loop = P.fresh(seed)
     P.install_wire_labels()
     bs = max(8, get_encryption_params(cipher.encode())[2])
@@ -131,6 +132,8 @@ def run(cfg, d, i, fault, seed=0, editor=None):
     algs = dict(encryption_algs=[cipher], compression_algs=[comp])
     if mac:
         algs['mac_algs'] = [mac]
+    if rekey:
+        algs['rekey_bytes'] = 150       # a re-exchange (by either side) happens among the data packets
     try:
         pair = P.Pair(loop, sopts=dict(encoding=None, **algs), copts=algs, env=env)
         ed = editor or Editor(d, i, fault)
@@ -255,9 +258,9 @@ def faults_for(pkt_len, bs, macsize, tier):
 def worker(job):
     cfg, tier = job
     acc = core.Acc()
-    cipher, mac, comp = cfg
+    cipher, mac, comp = cfg[:3]
     bs = max(8, get_encryption_params(cipher.encode())[2])
-    name = '%s/%s/%s' % cfg
+    name = '%s/%s/%s' % cfg[:3] + ('/rekey' if len(cfg) > 3 else '')
     try:
         base = run(cfg, 'cs', 0, None)
     except Exception as exc:        # pylint: disable=broad-except
@@ -276,6 +279,11 @@ def worker(job):
         data_idx = [k for k, (lab, ln) in enumerate(layout) if lab in (94, 95)]
         if tier == 'quick':
             targets = sorted({0, data_idx[0] if data_idx else 0, data_idx[-1] if data_idx else 0})
+            if len(cfg) > 3:
+                # around the re-exchange: its NEWKEYS, the packet before and the two after it
+                nk = [k for k, (lab, ln) in enumerate(layout) if lab == 21]
+                for k in nk[:2]:
+                    targets = sorted(set(targets) | {max(k - 1, 0), k, min(k + 1, n - 1), min(k + 2, n - 1)})
         else:
             targets = list(range(n))
         for i in targets:
@@ -499,7 +507,10 @@ def main(tier, seed):
     if a != b:
         print('HARNESS-NONDETERMINISM')
         return 2
-    acc = core.pmap(worker, core.rotate([(c, tier) for c in cfgs], seed), chunksize=2)
+    rk = [c + ('rekey',) for c in cfgs if c[2] == 'none' and (tier == 'thorough' or c[1] in (None, 'hmac-sha2-256', 'hmac-sha1-etm@openssh.com'))]
+    if tier == 'quick':
+        rk = [c for c in rk if c[0] in ('chacha20-poly1305@openssh.com', 'aes256-gcm@openssh.com', 'aes128-ctr', 'aes192-cbc')]
+    acc = core.pmap(worker, core.rotate([(c, tier) for c in cfgs + rk], seed), chunksize=2)
     scfgs = [c for c in cfgs if c[2] == 'none' and (tier == 'thorough' or c[1] in (None, 'hmac-sha2-256', 'hmac-sha2-256-etm@openssh.com', 'umac-64@openssh.com'))]
     if tier == 'quick':
         scfgs = [c for c in scfgs if c[0] in ('chacha20-poly1305@openssh.com', 'aes128-gcm@openssh.com', 'aes128-ctr', 'aes256-cbc', '3des-cbc')]
@@ -510,7 +521,7 @@ def main(tier, seed):
             'padding-length byte, body, padding, tag) (thorough: every byte), truncation after byte j, '
             'drop, duplicate, swap with next, insertion of 1/blocksize/packet-length zero bytes, splice of an '
             'earlier packet of the same direction and of a packet of the other direction; the same with the receiver '
-            'reading through the stream API, blocked in a read or busy elsewhere until the connection is gone '
+            'in sessions that re-key in mid-stream (faults around the second NEWKEYS), and reading through the stream API, blocked in a read or busy elsewhere until the connection is gone '
             '(prefix then error, never a clean EOF); distinct = '
             'distinct (config, direction, packet, fault, outcome)')
     return core.finish(PROP, tier, seed, 'fault_enumeration', acc, t0, rule,
